@@ -695,6 +695,7 @@ func Run(cfg vh.Config) (*vh.Result, error) {
 	syms := allSymbols()
 
 	type shardAcc struct {
+		bytes  int
 		terms  []string
 		cases  []any
 		in     *interner
@@ -706,7 +707,7 @@ func Run(cfg vh.Config) (*vh.Result, error) {
 	}
 	acc := newAcc()
 	shardNo := 0
-	per := 1500
+	perBytes := 450000 // shards are balanced by text size: coqc time is proportional to it
 	flush := func() error {
 		if len(acc.terms) == 0 {
 			return nil
@@ -899,12 +900,14 @@ func Run(cfg vh.Config) (*vh.Result, error) {
 		for _, id := range ids {
 			cts = append(cts, fmt.Sprintf("(%d,%d)", id, rr.counts[id]))
 		}
-		acc.terms = append(acc.terms, fmt.Sprintf("Case %s %s %s %s %s", cn, vh.List(cs), vh.List(os_), vh.List(ms), vh.List(cts)))
+		term := fmt.Sprintf("Case %s %s %s %s %s", cn, vh.List(cs), vh.List(os_), vh.List(ms), vh.List(cts))
+		acc.terms = append(acc.terms, term)
+		acc.bytes += len(term)
 		acc.cases = append(acc.cases, cj)
 		if len(res.Samples) < 6 && (res.Evaluations%997 == 1) {
 			res.Samples = append(res.Samples, cj)
 		}
-		if len(acc.terms) >= per {
+		if acc.bytes >= perBytes {
 			return flush()
 		}
 		return nil
